@@ -24,13 +24,10 @@ func noIterationCompletesWhenFailing(c *an.Ctx, key, rule string, fn *ssa.Functi
 		for _, e := range an.BackEdges(fn) {
 			body := an.LoopBlocks(e[0], e[1])
 			has := false
+			gb := an.GuardBlocks(fn, guards)
 			for b := range body {
-				for _, in := range b.Instrs {
-					for _, g := range guards {
-						if k, ok := in.(ssa.CallInstruction); ok && g.MatchCall != nil && g.MatchCall(k) {
-							has = true
-						}
-					}
+				if gb[b] {
+					has = true
 				}
 			}
 			if !has || !outermost(fn, e) {
